@@ -1111,8 +1111,13 @@ func judgeCouple(r *enum.R, c *coupleCase, spec *sspec, x *execution) {
 		calls = nil
 	}
 	seen := map[trace.SpanID]int{}
+	uses := map[trace.SpanID]int{} // exports are attributed by span id: only judged for ids used once
 	if x.parentModel.valid {
 		seen[extSID] = -1
+		uses[extSID]++
+	}
+	for _, o := range x.obs {
+		uses[o.sc.SpanID()]++
 	}
 	var out strings.Builder
 	for i := 0; i < n; i++ {
@@ -1199,7 +1204,7 @@ func judgeCouple(r *enum.R, c *coupleCase, spec *sspec, x *execution) {
 		if got := sc.TraceState().String(); got != ansTS {
 			r.FailHere("tracestate|span does not carry the sampler's answer|answer is "+tsRel(ansTS), node(), "span %d: tracestate %q, the sampler's answer carries %q (parent's %q)", i, got, ansTS, p.ts)
 		}
-		if exportsJudged {
+		if exportsJudged && uses[sc.SpanID()] == 1 {
 			want := ansDec == sdktrace.RecordAndSample
 			if (o.nS > 0) != want {
 				r.FailHere("exported-iff-sampled|simple processor|answer="+decName(ansDec), node(), "span %d: sampler answer %s, exported %d times through the simple span processor", i, decName(ansDec), o.nS)
@@ -1450,7 +1455,7 @@ func envDirect(r *enum.R) {
 // =======================================================================================
 
 func jobNames(thorough bool) []string {
-	jobs := []string{"ratio/threshold", "ratio/boundary", "ratio/monotone", "idgen", "couple/stock", "couple/custom", "couple/env"}
+	jobs := []string{"ratio/threshold", "ratio/boundary", "ratio/monotone", "idgen", "couple/custom", "couple/stock", "couple/env"}
 	for _, root := range pbRoots {
 		for _, d := range pbDelegates(thorough) {
 			jobs = append(jobs, fmt.Sprintf("couple/pb/root=%s/remoteSampled=%s", root.name, d.name))
